@@ -26,6 +26,16 @@ CHECKS = {
              "transport is the harness transport (real transports are covered by C01).",
         technique="TLA+ model checking (TLC) + gated edge-cover replay through a harness transport",
         ref="DESIGN.md section 4, C06"),
+    "C08": dict(
+        text="TLA+ spec proto/Pair.tla (pair0 and pair1 cooked; the state of pair*_sock plus the harness transport) in macro steps "
+             "(API call or peer event, then run to quiescence), model checked for one peer at a time, FIFO/lossless both ways while "
+             "the connection is up, back-pressure, hop+1 on the wire, hop>ttl dropped without disconnect, malformed header "
+             "disconnects and is never delivered, buffer bounds and resize, readiness mirrors; every transition replayed on the "
+             "real sockets through the harness transport.",
+        note="Trusted: TLC, harness, hooks, ASan/UBSan. Macro-step grain: callback interleavings inside a step are not enumerated for "
+             "PAIR (they are for PUSH/PULL and the aio framework). Raw and polyamorous modes are not modelled.",
+        technique="TLA+ model checking (TLC) + edge-cover replay (run-to-quiescence steps) through a harness transport",
+        ref="DESIGN.md section 4, C08"),
     "C17": dict(
         text="TLA+ spec data/Msg.tla: nng_msg as two run-length encoded byte strings plus a transcription of the nni_chunk "
              "geometry and buffer content; TLC checks refinement, in-bounds copies, capacity >= length, header <= 64 for all "
